@@ -25,6 +25,8 @@ pub enum ROp {
     UnregSignal { sig: u8 },
     Deliver { sig: u8, solo: bool },
     RegForbidden,
+    /// a registration the OS refuses (returns Err, no panic): 0 invalid number, 1 unchecked SIGKILL
+    RegFails { variant: u8 },
     /// third-party code installs its own handler with plain sigaction (only has an effect while
     /// the library has not taken the signal over): variant 0/1 plain A/B, 2/3 siginfo A/B
     ForeignSigaction { sig: u8, variant: u8 },
@@ -75,6 +77,7 @@ fn op_strategy(f: Focus) -> BoxedStrategy<ROp> {
         w_unsig => (0u8..3).prop_map(|sig| ROp::UnregSignal { sig }),
         w_del => (0u8..3, prop::bool::weighted(p_solo)).prop_map(|(sig, solo)| ROp::Deliver { sig, solo }),
         w_forb + 0 => Just(ROp::RegForbidden),
+        (if f == Focus::C04 || f == Focus::C18 { 2 } else { 0 }) => (0u8..2).prop_map(|variant| ROp::RegFails { variant }),
         (if f == Focus::C04 { 3 } else { 0 }) => (0u8..3, 0u8..4).prop_map(|(sig, variant)| ROp::ForeignSigaction { sig, variant }),
     ]
     .boxed()
@@ -421,6 +424,24 @@ fn run_op(thread: usize, idx: usize, op: &ROp, my_ids: &mut Vec<(SigId, u32)>) {
         }
         ROp::Deliver { sig, solo } => sim_deliver(SIGS[*sig as usize % 3], *solo),
         ROp::ForeignSigaction { sig, variant } => foreign_sigaction(SIGS[*sig as usize % 3], *variant),
+        ROp::RegFails { variant } => {
+            let c = vsched::call("register-fails", *variant as i64, 0);
+            let r = std::panic::catch_unwind(|| unsafe {
+                if *variant % 2 == 0 {
+                    registry::register(1000, || ())
+                } else {
+                    registry::register_signal_unchecked(libc::SIGKILL, || ())
+                }
+            });
+            match r {
+                Ok(Ok(_)) => vsched::ret(c, 1),
+                Ok(Err(_)) => vsched::ret(c, 0),
+                Err(_) => {
+                    vsched::mark("op-panic", thread as i64, idx as i64);
+                    vsched::ret(c, -2)
+                }
+            }
+        }
         ROp::RegForbidden => {
             let c = vsched::call("register-forbidden", libc::SIGKILL as i64, 0);
             let r = std::panic::catch_unwind(|| unsafe { registry::register(libc::SIGKILL, || ()) });
@@ -905,6 +926,80 @@ pub fn analyse(case: &RegCase, res: &RunResult) -> CaseReport {
         }
     }
 
+    // ---- C02 (aborted runs): the executor stopped the case at a Free of a snapshot that a
+    // delivery still has open. The mutator has finished waiting by then, so it returns while that
+    // delivery goes on with the replaced state; if the mutation removed an action of the
+    // delivery's signal that the delivery has not finished running, that action runs after its
+    // removal returned.
+    if res.violations.iter().any(|v| v.key == "C01/free-while-open") {
+        if let Some((fpos, _)) = frees.last() {
+            if let Some(ftid) = log.get(*fpos).map(|r| r.tid) {
+                if let Some(opi) = cur_op.get(&ftid).and_then(|st| st.last()) {
+                    let o = &ops[*opi];
+                    if o.name == "unregister" || o.name == "unregister_signal" {
+                        for d in dels.iter().filter(|d| d.target == 1 && d.end.is_none()) {
+                            let removed: Vec<i64> = if o.name == "unregister" {
+                                vec![o.a]
+                            } else {
+                                ops.iter().filter(|x| x.name == "register" && x.a == o.a && x.result == 1 && x.ret.map_or(false, |r| r < o.call)).map(|x| x.b).collect()
+                            };
+                            for t in removed {
+                                if tag_sig.get(&t) == Some(&d.sig) && !d.runs.iter().any(|r| r.0 == t && r.2.is_some()) {
+                                    // registered before the delivery began? then its snapshot has it
+                                    let reg_before = ops.iter().any(|x| x.name == "register" && x.b == t && x.result == 1 && x.ret.map_or(false, |r| r < d.start));
+                                    if reg_before {
+                                        rep.viol("C02/runs-removed-state", format!("{}({}) stopped waiting and is about to return while delivery {} still runs the replaced registry state containing action {}", o.name, o.a, d.id, t));
+                                    }
+                                }
+                            }
+                        }
+                    }
+                }
+            }
+        }
+    }
+
+    // ---- C05 under concurrency: unregister(id) returns true exactly when the action is still
+    // registered - the publish-ordered model says whether it was
+    {
+        let mut live: std::collections::BTreeSet<i64> = std::collections::BTreeSet::new();
+        let mut consistent = true;
+        for p in pubs.iter() {
+            let o = &ops[p.op];
+            match o.name {
+                "register" if o.result == 1 => {
+                    live.insert(o.b);
+                }
+                "unregister" => {
+                    if o.result == 1 && !live.remove(&o.a) {
+                        rep.viol("C05/ret@unregister", format!("unregister of action {} returned true although the action had already been removed (a concurrent removal was undone)", o.a));
+                    }
+                }
+                "unregister_signal" => {
+                    let gone: Vec<i64> = live.iter().cloned().filter(|t| tag_sig.get(t) == Some(&o.a)).collect();
+                    for t in gone {
+                        live.remove(&t);
+                    }
+                }
+                _ => consistent = false,
+            }
+        }
+        let _ = consistent;
+        // actions that run although the model says they were removed before the delivery began
+        if model_ok && completed {
+            for d in dels.iter().filter(|d| d.target == 1) {
+                for (t, enter, _) in &d.runs {
+                    if let Some(pi) = removed_by.get(t) {
+                        let o = &ops[pubs[*pi].op];
+                        if o.ret.map_or(false, |r| r < d.start) && *enter > d.start {
+                            rep.viol("C05/log-mismatch", format!("action {} ran in delivery {} although its removal had returned before the delivery began", t, d.id));
+                        }
+                    }
+                }
+            }
+        }
+    }
+
     // ---- C03
     let mut nt03 = false;
     for d in dels.iter().filter(|d| d.target == 1) {
@@ -1106,6 +1201,7 @@ pub fn analyse(case: &RegCase, res: &RunResult) -> CaseReport {
         ("C03".into(), nt03),
         ("C04".into(), nt04),
         ("C18".into(), nt18),
+        ("C05".into(), ops.iter().filter(|o| o.name.starts_with("unregister")).count() >= 2 && blocked_mutex),
     ];
     rep.nontrivial = nt01 || nt02 || nt03 || nt04 || nt18;
     let shape: Vec<(i32, u8, i64)> = log
